@@ -7,6 +7,7 @@
 package sipsp
 
 //@ func skipCRLF(buf, offs) (n, crl, err)
+//@   law[C11] SHIFT(buf, offs) positions n
 //@   law[C02] RES(buf, offs)
 //@   law[C03,C02] EXT(buf)
 //@   requires  bufOK(buf) && 0 <= offs && offs <= len(buf)
@@ -19,6 +20,7 @@ package sipsp
 //@   ensures   err == ErrHdrOk ==> (crl == 2 <==> (buf[offs] == '\r' && buf[offs+1] == '\n'))
 
 //@ func skipLWS(buf, offs, flags) (n, crl, err)
+//@   law[C11] SHIFT(buf, offs) positions n, i, offs
 //@   law[C02] RES(buf, offs) when flags&POptInputEndF == 0
 //@   law[C03,C02] EXT(buf) when flags&POptInputEndF == 0
 //@   requires  bufOK(buf) && 0 <= offs && offs <= len(buf)
@@ -41,6 +43,7 @@ package sipsp
 //@   ensures   err == ErrHdrMoreBytes ==> crl == 0 && (n == len(buf) || (isCRLF(buf[n]) && n+2 >= len(buf)))
 
 //@ func skipWS(buf, offs) (r)
+//@   law[C11] SHIFT(buf, offs) positions r, offs
 //@   law[C02] RESSCAN(buf, offs)
 //@   law[C03,C02] EXTSCAN(buf)
 //@   requires  bufOK(buf) && 0 <= offs && offs <= len(buf)
@@ -53,6 +56,7 @@ package sipsp
 //@   ensures   r == len(buf) || !isWS(buf[r])
 
 //@ func skipToken(buf, offs) (r)
+//@   law[C11] SHIFT(buf, offs) positions r, offs
 //@   law[C02] RESSCAN(buf, offs)
 //@   law[C03,C02] EXTSCAN(buf)
 //@   requires  bufOK(buf) && 0 <= offs && offs <= len(buf)
@@ -65,6 +69,7 @@ package sipsp
 //@   ensures   r == len(buf) || isLWSc(buf[r])
 
 //@ func skipTokenDelim(buf, offs, delim) (r)
+//@   law[C11] SHIFT(buf, offs) positions r, offs
 //@   law[C02] RESSCAN(buf, offs)
 //@   law[C03,C02] EXTSCAN(buf)
 //@   requires  bufOK(buf) && 0 <= offs && offs <= len(buf)
@@ -77,6 +82,7 @@ package sipsp
 //@   ensures   r == len(buf) || isLWSc(buf[r]) || buf[r] == delim
 
 //@ func skipLine(buf, offs) (n, crl, err)
+//@   law[C11] SHIFT(buf, offs) positions n, i, offs
 //@   law[C02] RES(buf, offs)
 //@   law[C03,C02] EXT(buf)
 //@   requires  bufOK(buf) && 0 <= offs && offs <= len(buf)
@@ -572,6 +578,7 @@ package sipsp
 // ---- token parameters (C17) ----
 
 //@ func SkipQuoted(buf, offs) (n, err)
+//@   law[C11] SHIFT(buf, offs) positions n, i, offs
 //@   law[C02] RES(buf, offs)
 //@   law[C03,C02] EXT(buf)
 //@   requires bufOK(buf) && 0 <= offs && offs <= len(buf)
